@@ -527,6 +527,10 @@ def run_tls(case: dict):
             conn.tcp.feed(pending)
         await vloop.settle(6)
         conn.client.step()
+        if case.get("think") and not disconnected and "req:incomplete" not in case["labels"] and "titan:short" not in case["labels"]:
+            # the request is complete; the components it waits for take their time (longer than any handshake or
+            # request timer, which must not matter any more)
+            await asyncio.sleep(case["think"])
         sim.release_all()
         await conn.pump()
         if case.get("slow_reader"):
@@ -581,6 +585,9 @@ def tls_case_st(draw):
                                                or ({"req:titan", "titan:exact"} <= lab and c["upload"] is not None))
     c["slow_reader"] = settled and not c["disconnect"] and draw(st.integers(0, 2)) == 0
     c["tls_mode"] = draw(st.sampled_from(["separate", "coalesce"]))
+    c["think"] = draw(st.sampled_from([0, 0, 0, 70, 200]))   # virtual seconds before the slow components are released
+    if c["slow_reader"]:
+        c["think"] = 0  # one source of delay at a time: a peer that reads nothing for minutes is aborted by asyncio itself
     c["tls"] = draw(st.sampled_from(["1.3", "1.3", "1.2"]))
     c["schedule"] = []
     return c
